@@ -72,7 +72,7 @@ const c16W = token.DefaultBufSize
 // c16WindowCases is the number of window cases appended to the case list.
 func c16WindowCases(tier string) int {
 	if tier == "thorough" {
-		return 12_000
+		return 3_000
 	}
 	return 128
 }
@@ -232,8 +232,9 @@ func c16WinPlanFor(r *fw.RNG, base *c16Doc, cell *c16WinGridCell) (*c16WinPlan, 
 				p.Place = "ends-input"
 			}
 		} else {
-			// never directly behind the hash-bang token: its line runs to the line feed
-			i, ok := free(func(i int) bool { return i < n && !(i == 1 && hasHB) })
+			// never in front of the hash-bang line (it must stay the first line) nor directly
+			// behind its token (the line runs to the line feed)
+			i, ok := free(func(i int) bool { return i < n && !(i <= 1 && hasHB) })
 			if !ok {
 				return nil, false
 			}
@@ -260,7 +261,7 @@ func c16WinPlanFor(r *fw.RNG, base *c16Doc, cell *c16WinGridCell) (*c16WinPlan, 
 			}
 		}
 	case "comment":
-		i, ok := free(func(i int) bool { return i < n && !(i == 1 && hasHB) })
+		i, ok := free(func(i int) bool { return i < n && !(i <= 1 && hasHB) })
 		if !ok {
 			return nil, false
 		}
@@ -487,6 +488,13 @@ func c16RunWindow(w *fw.W, k int) {
 			w.Count(fmt.Sprintf("window_%s_%s_reader_%s", plan.Kind, lclass, outcome), 1)
 			w.SetAdd("window_outcomes", fmt.Sprintf("%s %s: the reader %s", plan.Kind, c16WinSizeWord(n), outcome))
 			if an.Rejected {
+				if n < c16W-9 {
+					// a lexeme that fits, rejected all the same: the place, not the length (Format must agree anyway)
+					w.SetAdd("window_rejections_of_texts_whose_lexeme_fits", fmt.Sprintf("%s, %s, unit %q: %s", plan.Kind, plan.Place, plan.Unit, c16ErrClass(fmt.Errorf("%s", an.RejectErr))))
+					if w.Verbose {
+						w.Logf("rejected although the lexeme fits: %s", an.RejectErr)
+					}
+				}
 				if _, err := c16Strict(src); err == nil {
 					// the texts the missed change was about: readable only through a scanner sized to the source
 					w.Count("window_inputs_rejected_by_the_reader_but_read_by_a_source_sized_scanner", 1)
